@@ -181,12 +181,55 @@ pub fn run(ctx: &Ctx) -> Report {
         st.nontrivial(&(ak, scope, bare, carrier));
         st.sample(i, total2, || json!({"credential": format!("{}/{}", ak, scope), "bare": bare}));
     });
-    st = st.merge(st2);
+    let mut st = st.merge(st2);
+
+    // (3) histories on one thread: the server configuration changes between validations while a credential
+    //     scoped for the previous configuration is presented (nothing remembered from an earlier validation
+    //     may vouch for a scope)
+    {
+        let now = e2e::base_instant();
+        let cfgs: Vec<(&str, &str)> = vec![("us-east-1", "service"), ("us-east-1", "beta"), ("eu-west-1", "service"), ("", "")];
+        let k = (cfgs.len() * cfgs.len() * 2) as u64; // (server config, credential scoped for config, carrier)
+        let depth = 3u32;
+        let nh = crate::enumr::seq_count(k, depth);
+        let mut hist = crate::core::Stats::new();
+        for i in 0..nh {
+            let seq = crate::enumr::seq_decode(i, k, depth);
+            if seq.is_empty() {
+                continue;
+            }
+            hist.evaluations += 1;
+            hist.validated += 1;
+            hist.nontrivial(&("history", &seq));
+            for (pos, sym) in seq.iter().enumerate() {
+                let carrier = if sym % 2 == 0 { Carrier::Header } else { Carrier::Query };
+                let server = cfgs[((sym / 2) % cfgs.len() as u64) as usize];
+                let cred_for = cfgs[((sym / 2) / cfgs.len() as u64) as usize];
+                let mut plan = e2e::base_plan(carrier);
+                e2e::rekey(&mut plan, e2e::SECRET, cred_for.0, cred_for.1);
+                let built = build(&plan);
+                let mut cfg = Cfg::basic(now);
+                cfg.region = server.0.into();
+                cfg.service = server.1.into();
+                let case = Case { wire: WireReq::from_wire(&built.wire), cfg, prov: ProvSpec::standard() };
+                let before = hist.violations.len();
+                let j = e2e::judge_into(total1 + total2 + i * 4 + pos as u64, &case, &mut hist);
+                if hist.violations.len() > before {
+                    if let Some(v) = hist.violations.last_mut() {
+                        v.what = format!("history(step {} of {:?}):{}", pos, seq, v.what);
+                    }
+                    break;
+                }
+                hist.state(&(j.reference.stage as u8, "history"));
+            }
+        }
+        st = st.merge(hist);
+    }
 
     Report {
         stats: st,
         rule: format!(
-            "(1) five-part credentials: 12 date variants (exact, -1 day, +1 day, 7 digits, trailing space, extended, empty, written-local date, and the numerically equal spellings +D, 0D, 00D, D.0) x 8 near-misses each of region, service and terminator (exact, prefix, suffix, x+v, v+x, UPPER, empty, look-alike) x {} server (region, service) pairs x {} request instants (incl. 23:59:59Z, 00:00:00Z and offsets whose UTC date differs from the written date) x signing mode A (correctly signed under the credential's own scope; provider returns that key unconditionally) / B (signed under the server's scope) x carrier; (2) credentials of 1..8 parts, with leading/trailing/double slashes, empty access key and no slash at all. Oracle: reference verifier (Ok iff all five parts right; arity => IncompleteSignature/400; other mismatch => SignatureDoesNotMatch/403 also in mode A; provider asked iff scope fully correct, with (access key, token, UTC date, server region, server service)). states = distinct (stage, kind, provider ask)",
+            "(1) five-part credentials: 12 date variants (exact, -1 day, +1 day, 7 digits, trailing space, extended, empty, written-local date, and the numerically equal spellings +D, 0D, 00D, D.0) x 8 near-misses each of region, service and terminator (exact, prefix, suffix, x+v, v+x, UPPER, empty, look-alike) x {} server (region, service) pairs x {} request instants (incl. 23:59:59Z, 00:00:00Z and offsets whose UTC date differs from the written date) x signing mode A (correctly signed under the credential's own scope; provider returns that key unconditionally) / B (signed under the server's scope) x carrier; (2) credentials of 1..8 parts, with leading/trailing/double slashes, empty access key and no slash at all; (3) every sequence of 1..3 validations on one thread over 32 symbols (4 server configurations x credential scoped for any of the 4 x carrier): each judged as if it were alone. Oracle: reference verifier (Ok iff all five parts right; arity => IncompleteSignature/400; other mismatch => SignatureDoesNotMatch/403 also in mode A; provider asked iff scope fully correct, with (access key, token, UTC date, server region, server service)). states = distinct (stage, kind, provider ask)",
             n_serv, n_inst
         ),
         bounds: json!({"servers": n_serv, "instants": n_inst, "cases": total1 + total2}),
